@@ -310,6 +310,29 @@ pub struct Mvar {
     pub record_size: u16,
 }
 
+/// One tuple variation of the cvar table: deltas for CVT entries ("point numbers" are CVT indices).
+#[derive(Clone, Debug, PartialEq, Eq)]
+pub struct CvarTuple {
+    pub peak: Vec<i16>,
+    pub inter: Option<(Vec<i16>, Vec<i16>)>,
+    /// `All` = every CVT entry; otherwise strictly increasing CVT indices
+    pub points: PointSel,
+    /// one delta per selected CVT entry
+    pub deltas: Vec<i16>,
+    pub private_points: bool,
+    /// low 12 bits of tupleIndex; ignored by readers because cvar peaks are always embedded
+    pub index_bits: u16,
+    pub pt_pack: PtPack,
+    pub delta_pack: DeltaPack,
+}
+
+#[derive(Clone, Debug, PartialEq, Eq)]
+pub struct Cvar {
+    pub tuples: Vec<CvarTuple>,
+    pub shared_points: Option<PointSel>,
+    pub shared_pt_pack: PtPack,
+}
+
 #[derive(Clone, Debug, PartialEq, Eq)]
 pub struct VarFont {
     pub axes: Vec<AxisDef>,
@@ -324,6 +347,9 @@ pub struct VarFont {
     pub mvar: Option<Mvar>,
     /// hhea.numberOfHMetrics; None = numGlyphs
     pub num_h_metrics: Option<u16>,
+    /// 'cvt ' table (FWORD values)
+    pub cvt: Option<Vec<i16>>,
+    pub cvar: Option<Cvar>,
 }
 
 // ------------------------------------------------------------------------------------------------ reference evaluation
@@ -468,6 +494,46 @@ pub fn tuple_point_deltas(shape: &Shape, t: &TupleVar, opts: &EvalOpts) -> Vec<(
         }
     }
     out
+}
+
+/// Region of a cvar tuple (same rule as gvar: intermediate start/end, else zero..peak).
+pub fn cvar_tuple_region(t: &CvarTuple) -> RegionAxes {
+    match &t.inter {
+        Some((s, e)) => t.peak.iter().enumerate().map(|(i, p)| (s[i], *p, e[i])).collect(),
+        None => t.peak.iter().map(|p| ((*p).min(0), *p, (*p).max(0))).collect(),
+    }
+}
+
+/// Largest CVT index a cvar table refers to explicitly.
+pub fn cvar_max_index(c: &Cvar) -> Option<u16> {
+    c.tuples.iter().filter_map(|t| if let PointSel::List(l) = &t.points { l.iter().copied().max() } else { None }).max()
+}
+
+/// Exact instanced CVT values: cvt[i] = default + sum over applicable tuples of scalar * delta (cvar: "the deltas
+/// are applied to the CVT values"). None if the font has no cvt or a tuple refers to an index beyond it.
+pub fn eval_cvt(font: &VarFont, coords: &[i16], opts: &EvalOpts) -> Option<Vec<Rat>> {
+    let cvt = font.cvt.as_ref()?;
+    let mut v: Vec<Rat> = cvt.iter().map(|x| Rat::int(*x as i64)).collect();
+    if let Some(cv) = &font.cvar {
+        for t in &cv.tuples {
+            let idx: Vec<usize> = match &t.points {
+                PointSel::All => (0..cvt.len()).collect(),
+                PointSel::List(l) => l.iter().map(|i| *i as usize).collect(),
+            };
+            assert_eq!(idx.len(), t.deltas.len(), "machinery: one cvar delta per selected CVT entry");
+            if idx.iter().any(|i| *i >= cvt.len()) {
+                return None;
+            }
+            let s = region_scalar(&cvar_tuple_region(t), coords, opts);
+            if s.is_zero() {
+                continue;
+            }
+            for (k, i) in idx.iter().enumerate() {
+                v[*i] = v[*i].add(s.mul(Rat::int(t.deltas[k] as i64)));
+            }
+        }
+    }
+    Some(v)
 }
 
 /// Default-master x extent minimum of a glyph (None for glyphs without contours).
@@ -1008,6 +1074,47 @@ pub fn encode_gvar(font: &VarFont) -> Vec<u8> {
     w.done()
 }
 
+/// cvar: version 1.0, tuple variation store whose peaks are always embedded; the serialized data holds packed
+/// "point" numbers (CVT indices) and one packed delta array per tuple. dataOffset is from the start of the table.
+pub fn encode_cvar(c: &Cvar, axis_count: usize) -> Vec<u8> {
+    assert!(!c.tuples.is_empty() && c.tuples.len() <= 0x0FFF);
+    let mut data = W::new();
+    if let Some(sp) = &c.shared_points {
+        data.bytes(&pack_points(sp, &c.shared_pt_pack));
+    }
+    let mut headers = W::new();
+    for t in &c.tuples {
+        assert_eq!(t.peak.len(), axis_count);
+        let mut td = W::new();
+        if t.private_points {
+            td.bytes(&pack_points(&t.points, &t.pt_pack));
+        } else {
+            assert!(c.shared_points.as_ref() == Some(&t.points), "machinery: tuple without private points must use the shared point numbers");
+        }
+        td.bytes(&pack_deltas(&t.deltas, &t.delta_pack));
+        let td = td.done();
+        assert!(td.len() <= 0xFFFF);
+        let flags: u16 = 0x8000 | if t.inter.is_some() { 0x4000 } else { 0 } | if t.private_points { 0x2000 } else { 0 } | (t.index_bits & 0x0FFF);
+        headers.u16(td.len() as u16).u16(flags);
+        for p in &t.peak {
+            headers.i16(*p);
+        }
+        if let Some((s, e)) = &t.inter {
+            assert!(s.len() == axis_count && e.len() == axis_count);
+            for v in s.iter().chain(e.iter()) {
+                headers.i16(*v);
+            }
+        }
+        data.bytes(&td);
+    }
+    let headers = headers.done();
+    let mut w = W::new();
+    w.u16(1).u16(0);
+    w.u16(c.tuples.len() as u16 | if c.shared_points.is_some() { 0x8000 } else { 0 }).u16((8 + headers.len()) as u16);
+    w.bytes(&headers).bytes(&data.done());
+    w.done()
+}
+
 pub fn encode_ivs(ivs: &Ivs, axis_count: usize) -> Vec<u8> {
     let mut regions = W::new();
     regions.u16(axis_count as u16).u16(ivs.regions.len() as u16);
@@ -1331,6 +1438,16 @@ pub fn build_tables(font: &VarFont) -> Vec<(u32, Vec<u8>)> {
     }
     if let Some(m) = &font.mvar {
         t.push((tag(b"MVAR"), encode_mvar(m, font.axes.len())));
+    }
+    if let Some(c) = &font.cvt {
+        let mut w = W::new();
+        for v in c {
+            w.i16(*v);
+        }
+        t.push((tag(b"cvt "), w.done()));
+    }
+    if let Some(c) = &font.cvar {
+        t.push((tag(b"cvar"), encode_cvar(c, font.axes.len())));
     }
     t
 }
